@@ -225,8 +225,10 @@ def _parse(out):
         m = _INV_RE.search(line) or _ACT_RE.search(line)
         if m and res.violated is None:
             res.violated = m.group(1)
-        if "Temporal properties were violated" in line and res.violated is None:
-            res.violated = "<temporal>"
+        if ("Temporal properties were violated" in line or re.search(r"Temporal property .* was violated", line)) \
+                and res.violated is None:
+            m2 = re.search(r"Temporal property (\S+) was violated", line)
+            res.violated = m2.group(1) if m2 else "<temporal>"
         if "Deadlock reached" in line and res.violated is None:
             res.violated = "<deadlock>"
         if "Postcondition" in line and ("violated" in line or "false" in line.lower()):
